@@ -403,7 +403,7 @@ def replay_counters(d):
     return (not p), "seed %s: %s" % (d["inputs"]["seed"], p or "tables agree")
 
 
-@bounded("C09.tables_native", ["C09", "C02"], note="real grouped and ungrouped transcript counters fed the same random records, "
+@bounded("C09.tables_native", ["C09", "C02"], shards=8, note="real grouped and ungrouped transcript counters fed the same random records, "
          "dumped to real files: matrix header = sorted groups, matrix and linear tables carry identical (feature, group, value) "
          "triples, every cell holds at least the uniquely assigned reads of its own group and nothing from other groups, per-group counts sum to the ungrouped count, simple TPM sums to 1e6 with ratios preserved; bound: N random runs "
          "of 5..40 records over 5 features and 2..5 groups")
